@@ -181,6 +181,7 @@ class Host:
         self.whandles = {}         # wid -> engine handle
         self.removed = set()
         self.fresh = 0
+        self.amb_seg = None
         self.engine = engine_cls(self)
         self.objs = self.engine.build(self.cfg)      # list of oids
         self.open_uctx = {}
@@ -270,9 +271,13 @@ class Host:
             except Exception as e:      # noqa
                 self.trace.append(('EXC', type(e).__name__, str(e)[:120]))
             self.trace.append(('VALS', tuple(self.engine.snapshot(o) for o in self.objs)))
+            if self.engine.stop():
+                self.amb_seg = 0        # the statement stopped deciding inside the prelude already
         for spec in late:
             self.watch(spec)
         for i, op in enumerate(self.case['ops']):
+            if self.amb_seg is not None:
+                break
             self.trace.append(('OP', i, op['op']))
             try:
                 self.top(op)
@@ -280,6 +285,7 @@ class Host:
                 self.trace.append(('EXC', type(e).__name__, str(e)[:120]))
             self.trace.append(('VALS', tuple(self.engine.snapshot(o) for o in self.objs)))
             if self.engine.stop():
+                self.amb_seg = sum(1 for e in self.trace if e[0] == 'OP') - 1      # index of the segment it happened in
                 break
         # close whatever is still open, innermost first, so the run ends outside every context
         self.trace.append(('OP', len(self.case['ops']), 'closeall'))
@@ -883,7 +889,7 @@ class DispatchWorld:
             out.stats['ambiguous_runs'] += 1
             out.stats['ambiguous: ' + amb] += 1
             # compare only the operations before the one in which the statement stopped deciding
-            nseg = sum(1 for e in mtrace if e[0] == 'OP') - 2
+            nseg = mh.amb_seg if mh.amb_seg is not None else sum(1 for e in mtrace if e[0] == 'OP') - 1
             mtrace = _truncate(mtrace, nseg)
             rtrace = _truncate(rtrace, nseg)
         # which property does an operation belong to: C04 while any context is open or for trigger/update operations
